@@ -221,3 +221,50 @@ func VerifC11_Bundles() {
 		vReach("missing")
 	}
 }
+
+// A required option declared on the program after some commands exist and
+// before another one is created is enforced for all of them, also without a
+// help command declared afterwards.
+func VerifC11_LateRequired() {
+	vNativeReset()
+	target := vInt("target", 0, 2) // a, a sub, b
+	supplied := vBool("supplied")
+	val := positional("val", "a", "b", "sub")
+	ran := ""
+	opt := New()
+	fn := func(who string) CommandFn {
+		return func(ctx context.Context, o *GetOpt, a []string) error { ran += who + ";"; return nil }
+	}
+	a := opt.NewCommand("a", "")
+	a.SetCommandFn(fn("a"))
+	a.NewCommand("sub", "").SetCommandFn(fn("sub"))
+	tok := opt.String("tok", "", opt.Required("tok is needed"))
+	opt.NewCommand("b", "").SetCommandFn(fn("b"))
+	args := [][]string{{"a"}, {"a", "sub"}, {"b"}}[target]
+	want := []string{"a;", "sub;", "b;"}[target]
+	if supplied {
+		args = append(args, "--tok", val)
+	}
+	vPhase("run")
+	remaining, err := opt.Parse(args)
+	var derr error
+	if err == nil {
+		derr = opt.Dispatch(context.Background(), remaining)
+	}
+	final := err
+	if final == nil {
+		final = derr
+	}
+	vObserve("final", final)
+	vObserve("ran", ran)
+	if supplied {
+		vAssert("late-required/supplied-no-error", final == nil)
+		vAssert("late-required/supplied-ran", ran == want)
+		vAssert("late-required/value", *tok == val)
+		vReach("supplied")
+	} else {
+		vAssert("late-required/missing-error", final != nil && errors.Is(final, ErrorParsing))
+		vAssert("late-required/nothing-ran", ran == "")
+		vReach("missing")
+	}
+}
